@@ -39,6 +39,8 @@ SPEC = {
              "real traces.  Non-trivial = some line is touched at least twice (model cases) / the filter keeps "
              "and drops at least one row / both merged files hold rows; distinct = distinct case description."),
     "shards": {"quick": 16, "thorough": 16},
+    "budget_s": {"quick": 0, "thorough": 500},
+    "timeout_s": {"quick": 900, "thorough": 1500},
     "min_counts": {"quick": {"evaluations": 1500, "oracle_evals": 30000, "model_calls": 8000, "buffet_calls": 2500,
                              "cache_calls": 4000, "optimum_checked": 1500, "listing_checked": 8000,
                              "filter_calls": 100, "combine_calls": 100, "kernel_cases": 30, "lineperm_checked": 300,
@@ -93,7 +95,7 @@ def generate(rng, tier, shard, nshards, mon):
             idx += 1
     mon.exhaustive[f"cache-readonly-seqs-len{maxlen4}-4lines"] = True
     # (i-b) read/write sequences over 2 lines, cache
-    maxlen = 5 if quick else 7
+    maxlen = 5 if quick else 6
     for ln in range(1, maxlen + 1):
         for seq in itertools.product([(0, "r"), (0, "w"), (1, "r"), (1, "w"), (0, "rw")], repeat=ln):
             if idx % nshards == shard:
@@ -111,7 +113,7 @@ def generate(rng, tier, shard, nshards, mon):
                 idx += 1
     mon.exhaustive[f"buffet-seqs-len{maxlen}-2lines-all-window-splits"] = True
 
-    nrand = (5600 if quick else 90000) // nshards
+    nrand = (4000 if quick else 60000) // nshards
     for _ in range(nrand):
         r = rng.random()
         if r < 0.46:
@@ -768,8 +770,16 @@ def _run_model_case(case, mon, tmp, files=None, tagx=""):
             if multi:
                 mon.count("multi_binding_calls")
             if not ok:
-                cls = ":rw-rows-of-different-lines-share-a-stamp" if shift else ""
-                mon.violation(f"cacheTraffic:raised:{type(res).__name__}{cls}{ftag}{tag}",
+                # input class of the failing run (first that applies), so that one mechanism is one key
+                if foreign:
+                    cls = ftag
+                elif shift:
+                    cls = ":rw-rows-of-different-lines-share-a-stamp"
+                elif staging and same_rank:
+                    cls = ":staging-lines-beside-another-binding-of-the-rank"
+                else:
+                    cls = tag
+                mon.violation(f"cacheTraffic:raised:{type(res).__name__}{cls}",
                               f"cacheTraffic raised {type(res).__name__}: {res} (capacity {cap_lines} lines)")
                 prev = None
                 continue
